@@ -22,10 +22,10 @@ CHECKS = {
  "C15": ("exploration", "TLC case machine spec/Init.tla (exact rational squared scales) + replay observing the generator arguments, plus fixed-seed sample statistics",
          "every initialiser x shape x gain/mode/nonlinearity/slope: documented scale vs arguments handed to NumPy's generator, frame (identity, shape, dtype, requires_grad); distribution shape sampled",
          "statistics are fixed-seed with wide margins (outside TLC)", "5/C15"),
- "C02": ("model_checking", "TLC case machine spec/NNCatalog.tla over spec/ConvGeom.tla (polynomial forms with mechanically derived VJPs; named real functions with spec-fixed structure) + replay of every case",
+ "C02": ("model_checking", "TLC case machine spec/NNCatalog.tla over spec/ConvGeom.tla (polynomial forms with mechanically derived VJPs; named real functions with spec-fixed structure) + replay of every case; BatchNorm layer histories with pending backward passes (spec/NormDrop.tla)",
          "every nn case of the geometry / shape / mode grids replayed in both dtypes for every requires-grad subset and basis/negative/generic/ones upstream gradients",
          "real functions and their partials interpreted with mpmath; 2-D geometry grid reduced in quick tier", "5/C02"),
- "C06": ("model_checking", "TLC case machine spec/NNCatalog.tla (forward definitions, geometry, acceptance) + replay of every case, functional and module forms, plus layer-construction grid",
+ "C06": ("model_checking", "TLC case machine spec/NNCatalog.tla (forward definitions, geometry, acceptance) + replay of every case in three public forms (functional with tuples / ints, layer module), layer-construction grid, BatchNorm layer histories (spec/NormDrop.tla)",
          "forward shape/values and accept/reject for every nn case; 'same'/'valid'/default-stride layer normalisation against ConvGeom.OutLen",
          "MAY cases may raise; all-padding max-pool windows excluded", "5/C06"),
  "C16": ("model_checking", "TLC invariants Adjoint / FoldUnfoldCount on spec/ConvGeom.tla for every enumerated geometry + replay on all conv_tools variants",
@@ -52,22 +52,22 @@ CHECKS = {
  "C05": ("model_checking", "TLC case machine spec/OpCatalog.tla (forward definitions + acceptance policy) + replay of every case",
          "forward shape/values and accept/reject policy for every case of the grids, all public forms",
          "policy table is part of the spec; zero-size tensors excluded", "5/C05"),
- "C10": ("model_checking", "typing layer of the TLC case machines + replay in both dtypes with cross-dtype upstream gradients",
+ "C10": ("model_checking", "typing layer of the TLC case machines (OpCatalog, NNCatalog) + replay in both dtypes with cross-dtype upstream gradients; BatchNorm layer histories (dtype of outputs and buffers)",
          "result dtype, .grad dtype/shape for every case; f32 vs f64 agreement",
          "mixed-dtype operands unconstrained", "5/C10"),
  "C11": ("model_checking", "frame conditions of OpCatalog/Autograd specs + byte-level snapshots during replay",
          "operands, upstream gradients and all tensors of replayed behaviours are snapshotted and compared after every call; repeat-determinism; clone/detach storage",
          "mutation observed through public .data/.grad arrays", "5/C11"),
- "C03": ("model_checking", "TLC on spec/Autograd.tla (forward-mode ghost vs reverse sweep, all sweep orders) + replay of every emitted program into the library",
+ "C03": ("model_checking", "TLC on spec/Autograd.tla (forward-mode ghost vs reverse sweep, all sweep orders) + replay of every emitted program into the library + TLC trace validation (spec/TapeTrace.tla) of recorded random programs and of the repository's own tests",
          "every program up to the stated bounds is explored by TLC (Accumulate, SweepOnce) and executed by the library; leaf gradients, once-only and order of backward functions compared",
          "integer-valued operands; operator alphabet of the program-level spec; bounds in evidence", "5/C03"),
  "C04": ("model_checking", "TLC on spec/Autograd.tla (ghost accumulator over all histories) + replay of every emitted history",
          "all histories of build/backward(any root)/retain/reset up to MaxHist are replayed; .grad of every tensor compared after every call",
          "bounded histories; deeper ones sampled with TLC -simulate", "5/C04"),
- "C07": ("model_checking", "TLC on spec/Autograd.tla (mode stack with ghost, flag rules) + replay of every emitted behaviour",
+ "C07": ("model_checking", "TLC on spec/Autograd.tla (mode stack with ghost, flag rules) + replay of every emitted behaviour + TLC trace validation (spec/TapeTrace.tla) of recorded random programs (flags, refusals, release rule)",
          "all nestings of no_grad/retain_grads construct/enter/exit (incl. exception), flag toggles, refusals and release rule within bounds, replayed and compared through public probes",
          "LIFO exits; same object not entered twice concurrently; mixed retain modes unconstrained", "5/C07"),
- "C17": ("model_checking", "TLC on spec/Autograd.tla (SweepOnce, SweepTerminates liveness, NoHistory) + behaviour families replayed at N up to 5e4 + weak-reference liveness replay",
+ "C17": ("model_checking", "TLC on spec/Autograd.tla (SweepOnce, SweepTerminates liveness, NoHistory) + behaviour families (chain, ladder, fan, wide) replayed at N up to 5e4 with a deterministic cost measure + weak-reference liveness replay",
          "small instances exhaustively; scale by instantiating spec-checked behaviour families; liveness vs LiveFrom",
          "scale is sampled at fixed N; memory observed via weakrefs after gc", "5/C17"),
 }
